@@ -136,6 +136,8 @@ TExit == Is("Exit") /\ Same /\ phase = "exited"
         /\ (signalled /\ cfg.grace_ms = 0 => E.after_ms <= 2000)
         /\ (signalled /\ cfg.grace_ms > 0 => (E.after_ms >= cfg.grace_ms - 50 /\ E.after_ms <= cfg.grace_ms + 2000))
         /\ (signalled /\ cfg.grace_ms > 0 /\ fwdBeforeSignal /\ cfg.latency_ms + 500 < cfg.grace_ms => answered)
+        \* a signal that arrived before the agent was healthy: gone by the end of the period at the latest
+        /\ (("early" \in DOMAIN E /\ E.early) => E.after_ms <= cfg.grace_ms + 2000)
                /\ Step
 \* the harness observed the process still running at the end of the scenario
 TStillAlive == Is("StillAlive") /\ Same /\ phase # "exited"
